@@ -1,7 +1,7 @@
 """C13 - assembly output is a pure function of its inputs.
 
 Explicit-state search over assemble-call histories in ONE process (K2): every history of depth <= 2
-(thorough 3) over 14 actions (stl programs at w=64/32, a no-stl program at w=16, werror on, a parse
+(thorough 3) over 16 actions (stl programs at w=64/32, a no-stl program at w=16, werror on, a parse
 failure inside nested namespaces, a lexing error, an unknown macro after the stl cache was filled, a
 macro-recursion overflow with max_recursion_depth=5, a run with max_recursion_depth=2000, a
 rep-heavy program, the stl under other short names, other user short names, another directory) is run
@@ -28,6 +28,9 @@ NSFAIL = 'ns a {\n ns b {\n  def m {\n   ;\n  }\n  x: ;)\n }\n}\n'
 LEXFAIL = ';\n`\n'
 UNKNOWN = 'stl.startup\nno_such_macro 1\nstl.loop\n'
 RECURSE = 'def r {\n r\n}\nstl.startup\nr\nstl.loop\n'
+CONSTS = 'LEN = 5\nVAL = LEN * 3\nstl.startup\nstl.output_char \'a\' + LEN\nstl.loop\n'
+CONSTS_FAIL = 'LEN = 7\nstl.startup\nno_such_macro LEN\nstl.loop\n'
+USES_NAMES = 'stl.startup\n;LEN\nLEN:\n;VAL\nVAL:\nstl.loop\n'
 
 # action: (name, text, kwargs)
 ACTIONS = [
@@ -45,12 +48,16 @@ ACTIONS = [
     ('stl-other-short-names', HELLO, dict(w=64, use_stl=True, stl_names='lib')),
     ('user-other-short-name', REPHEAVY, dict(w=64, use_stl=True, names=['zz'])),
     ('other-directory', HELLO, dict(w=64, use_stl=True, subdir='elsewhere')),
+    ('defines-constants32', CONSTS, dict(w=32, use_stl=True)),
+    ('defines-constants-then-fails', CONSTS_FAIL, dict(w=64, use_stl=True)),
 ]
 PROBES = [
     ('p-hello64-v3', HELLO, dict(w=64, use_stl=True, version=3)),
     ('p-rep32-v2', REPHEAVY, dict(w=32, use_stl=True, version=2)),
     ('p-nostl16-v1', NOSTL, dict(w=16, use_stl=False, version=1)),
     ('p-rep64-werror-v1', REPHEAVY, dict(w=64, use_stl=True, version=1, werror=True)),
+    ('p-names64-v1', USES_NAMES, dict(w=64, use_stl=True, version=1)),
+    ('p-names32-v3', USES_NAMES, dict(w=32, use_stl=True, version=3)),
 ]
 
 
